@@ -123,6 +123,15 @@ def tableOracle (total : Nat) (table : List (Nat × String × Nat)) : Oracle := 
   | some e => some e.2
   | none => none
 
+/-- text-level "indentation × k": every blank that belongs to the run of blanks directly after a line break (`b` = we are in such a
+    run) is repeated `k` times -/
+def scaleText (k : Nat) : Bool → Str → Str
+  | _, [] => []
+  | b, c :: r =>
+    if c = '\n' then '\n' :: scaleText k true r
+    else if b && (c = ' ' || c = '\t') then List.replicate k c ++ scaleText k true r
+    else c :: scaleText k false r
+
 /-- a toy tokenizer for non-vacuity examples: every `a` is a one-character NAME -/
 def toyOracle : Oracle := fun s => match s with | 'a' :: _ => some ("NAME", 1) | _ => none
 
